@@ -210,19 +210,20 @@ CHECKS = {
         technique="Lean 4 unwinding/non-interference proofs over a generated-footprint interleaving model + multi-threaded differential runs + TSan",
         design="DESIGN.md §5 C11"),
     "C12": dict(
-        text=("Theorems (Props/C12.lean, 18) over a byte-level model of check_stream_header / load_obs / stream_step with the exact C "
+        text=("Theorems (Props/C12.lean, 19) over a byte-level model of check_stream_header / load_obs / stream_step with the exact C "
               "integer casts and ARBITRARY memory beyond the file: valid streams are accepted (non-vacuity); any single header "
               "byte replaced by any other value, and files shorter than 8 bytes, are refused (bad_header_rejected, "
               "short_header_rejected); a cut strictly inside the last event is refused (Fixed.truncation_rejected, full strength "
               "for the code after the repair db50cd1; truncation_not_rejected keeps the decide witness for the code before it); "
               "two adjacent events with different clocks exchanged anywhere are refused (swap_rejected); the metadata gates as "
               "decision logic: checkStream accepts iff the spelled-out conjunction, each mandatory key missing or altered is "
-              "refused (thread_stream_spec, mandatory_key_rejected, trace_key_rejected); events of a model that is not required "
+              "refused (thread_stream_spec, mandatory_key_rejected, trace_key_rejected); an unparsable or incompatible model version "
+              "required by ANY thread aborts the probe (mismatched_require_rejected, composing the version model of C14); events of a model that is not required "
               "and wrong payload sizes of size-checked events are refused (unrequired_model_rejected, "
               "wrong_payload_size_rejected); the sticky is_jumbo of the old emu_ev is kept as a witness. Tie: the real stream.c "
               "in an ASan harness vs the Lean cursor (every offset, accept/error, over-read), and `ovniemu -l` on every single "
               "corruption of generated valid traces (thorough: all 255 wrong values of each header byte, every cut, every "
-              "adjacent swap, every mandatory key): exit != 0 and no 'emulation finished ok'."),
+              "adjacent swap, every mandatory key, the version each stream requires of each model): exit != 0 and no 'emulation finished ok'."),
         note=TB + "; int = 32-bit wrap, int64 offsets unbounded; metadata is logic over what the parson getters return (parson "
              "assumed); unknown MCV inside an enabled model and handler size guards are carried by the e2e correspondence",
         technique="Lean 4 theorems over a byte-level cursor with adversarial out-of-file memory + single-corruption differential runs",
